@@ -59,6 +59,8 @@ func makeComments(summary Summary, showDuplicates bool) (comments []PendingComme
 	var content string
 	var err error
 	for _, reports := range dedupReports(summary.reports, showDuplicates) {
+		// Problems on removed rules have no file to quote from, never reuse the previous one.
+		content = ""
 		if reports[0].Problem.Anchor == checks.AnchorAfter {
 			content, err = readFile(reports[0].Path.Name)
 			if err != nil {
